@@ -7,5 +7,5 @@ mkdir -p bin work evidence replays
 ( cd coq && coq_makefile -f _CoqProject -o Makefile >/dev/null && timeout 3000 make -j16 )
 ./ocaml/build.sh
 cp /repo/go.sum harness/go.sum
-( cd harness && go build -tags verif -o ../bin/implrun ./cmd/implrun )
+( cd harness && go build -tags verif -o ../bin/implrun ./cmd/implrun && CGO_ENABLED=1 go build -race -tags verif -o ../bin/implrun-race ./cmd/implrun )
 echo setup-ok
